@@ -126,6 +126,7 @@ Inductive relabel_arg :=
 | RAffix (s : string)                   (* one string: '_x' suffix, 'x_' prefix, anything else ignored *)
 | RNames (l : list string)              (* a list of new names (or several positional strings) *)
 | RDouble                               (* a callable: lambda k: k * 2 *)
+| RUpper                                (* a callable: str.upper *)
 | RDict (l : list (string * string)).   (* a dict old -> new *)
 
 Definition starts_us (s : string) : bool := match s with String c _ => Ascii.eqb c "_"%char | EmptyString => false end.
@@ -135,6 +136,10 @@ Fixpoint ends_us (s : string) : bool :=
   | String c EmptyString => Ascii.eqb c "_"%char
   | String _ s' => ends_us s'
   end.
+
+Definition upper_ascii (c : ascii) : ascii :=
+  let n := nat_of_ascii c in if (97 <=? n) && (n <=? 122) then ascii_of_nat (n - 32) else c.
+Fixpoint upper (s : string) : string := match s with EmptyString => EmptyString | String c s' => String (upper_ascii c) (upper s') end.
 
 Section DictAttr.
   Context {V : Type}.
@@ -186,6 +191,7 @@ Section DictAttr.
       | RNames [s] => affix_map keys s          (* a single positional string is an affix, never a name *)
       | RNames l => if Nat.eqb (List.length l) (List.length keys) then of_items (combine keys l) else []
       | RDouble => of_items (map (fun k => (k, (k ++ k)%string)) keys)
+      | RUpper => of_items (map (fun k => (k, upper k)) keys)
       | RDict l => aupdate [] l
       end in
     aupdate base kw.
@@ -303,7 +309,8 @@ Arguments CErr {V} e.
 (* ------------------------------------------------------------------ concrete hashables for the correspondence *)
 Local Open Scope Z_scope.
 (* hashable Python values used as ulist elements *)
-Inductive hv := HInt (z : Z) | HFloat (z : Z) | HBool (b : bool) | HStr (s : string) | HNone | HTup (l : list hv).
+(* HOther t: the t-th of a fixed list of further hashables, each equal only to itself (inf, -inf, 0.5, bytes, frozenset, ...) *)
+Inductive hv := HInt (z : Z) | HFloat (z : Z) | HBool (b : bool) | HStr (s : string) | HNone | HTup (l : list hv) | HOther (t : Z).
 
 (* code a = code b  iff  a == b in Python (1 == 1.0 == True; tuples element-wise) *)
 Fixpoint code (h : hv) : list Z :=
@@ -314,6 +321,7 @@ Fixpoint code (h : hv) : list Z :=
   | HStr s => 1 :: Z.of_nat (String.length s) :: map (fun c => Z.of_nat (nat_of_ascii c)) (list_ascii_of_string s)
   | HNone => [2]
   | HTup l => 3 :: Z.of_nat (List.length l) :: flat_map code l
+  | HOther t => [4; t]
   end.
 Fixpoint lz_eqb (a b : list Z) : bool :=
   match a, b with
